@@ -239,12 +239,20 @@ class RefRun(object):
                 # failure are causal ancestors, and the context it sees is
                 # timing dependent.
                 j.anc = set()
+                culprits = []
                 for p_ in self.inbound_specs(j.task['name']):
-                    for po in (self.by_name.get(p_) or [])[-1:]:
+                    execs = self.by_name.get(p_) or []
+                    if not execs:
+                        culprits.append(None)
+                    for po in execs[-1:]:
                         if po.state in ('SUCCESS', 'ERROR', 'CANCELLED',
                                         'SKIPPED') and j.task['name'] not in \
                                 [n for n, _ in po.next]:
-                            j.anc |= po.anc | {po.id}
+                            culprits.append(po)
+                if len(culprits) == 1 and culprits[0] is not None:
+                    # any single culprit is enough to fail the join; only
+                    # with exactly one the moment of failure is determined
+                    j.anc = culprits[0].anc | {culprits[0].id}
                 j.env = dict((k, (RACY, -1)) for k in j.env)
                 # (impl) a join failed by its inbound tasks completes like
                 # any task: publish-on-error is evaluated, task().result is
